@@ -29,7 +29,7 @@ def batches(tier, seed):
                 break
         c = procdrive.decorate(rng, c, n_dv=(0, 2))
         c['_i'] = i
-        c['_subproc'] = (i % (25 if tier == 'quick' else 60) == 0)
+        c['_subproc'] = (i % (20 if tier == 'quick' else 50) == 0)
         cases.append(c)
     yield 'g-sel', cases
 
@@ -113,6 +113,22 @@ def run_case(case):
             pair('add-constraint', g6)
         except Exception:
             pass
+    # an in-place edit after the graph was hashed / compared before (a memoised hash must not survive the edit): connectors
+    # are hung below the first node, the graph is hashed, then a connection choice is added between them
+    try:
+        from adsg_core.graph.adsg_nodes import ConnectorNode
+        g8 = g.copy()
+        host = list(g.graph.nodes)[0]
+        cs, ct = ConnectorNode('CS', deg_list=[0, 1]), ConnectorNode('CT', deg_list=[0, 1])
+        g8.add_edges([(host, cs), (host, ct)])
+        g8_pre = g8.copy()
+        _ = hash(g8), g8 == g8_pre
+        g8.add_connection_choice('XNEW', [cs], [ct])
+        queries.append(sx(['same_graph', describe(b, g8, extra), describe(b, g8_pre, extra)]))
+        impl.append(['add-connection-choice-after-hashing', bool(g8 == g8_pre), hash(g8) == hash(g8_pre)])
+        tags.append('edit:add-connection-choice-after-hashing')
+    except Exception as e:
+        tags.append('add-connection-choice-raises:%s' % type(e).__name__)
     # pickle round trip of the graph
     fails = []
     # the same description built again (fresh node objects): recognised as the same graph, same fingerprint
@@ -201,6 +217,16 @@ def run_case(case):
                     fails.append({'clause': 'other-hash-seed-design-variables-differ', 'detail': '%s vs %s' % (dvs, o['des_vars'])})
                 elif o['decodes'] != dec:
                     fails.append({'clause': 'other-hash-seed-decodes-differently', 'detail': '%s vs %s' % (dec[:2], o['decodes'][:2])})
+                # the graph pickled by the other process (initialised there: its edges went through sets under the other hash
+                # seed) is the same design space as the one built here
+                try:
+                    import base64
+                    g_other = pickle.loads(base64.b64decode(o['graph_pickle']))
+                    if not g_other.is_same(g) or g_other.fingerprint() != g.fingerprint():
+                        fails.append({'clause': 'graph-pickled-by-another-process-not-recognised-as-same',
+                                      'detail': 'is_same %s, fingerprints equal %s (other PYTHONHASHSEED %s)' % (g_other.is_same(g), g_other.fingerprint() == g.fingerprint(), env['PYTHONHASHSEED'])})
+                except Exception as e2:
+                    fails.append({'clause': 'graph-pickled-by-another-process-not-loadable:%s' % type(e2).__name__, 'detail': str(e2)[:200]})
                 tags.append('subprocess')
     except Exception as e:
         tags.append('processor-skipped:%s' % type(e).__name__)
